@@ -67,6 +67,25 @@ def configs(ctx):
         C['line-long-at-%d' % pos] = {'chains': list(ch), 'dials': [(0, 1), (1, 2)], 'small': False}
         C['star-hub-dialled-long-at-%d' % pos] = {'chains': list(ch), 'dials': [(0, 1), (2, 1)], 'small': False}
         C['triangle-long-at-%d' % pos] = {'chains': list(ch), 'dials': [(0, 1), (1, 2), (2, 0)], 'small': False}
+    # three nodes with a DEEP fork (beyond the locator's dense range) between two of them and a third that is ahead:
+    # a node can be asked for blocks while it is itself still behind, and inventories overlap the asker's own chain
+    A, B, Cc = chain(3, 'a', 22), chain(3, 'a', 17), chain(3, 'b', 12)
+    C['deep-line-A-B-C'] = {'chains': [A, B, Cc], 'dials': [(0, 1), (1, 2)], 'small': False}
+    C['deep-line-C-dials-B-dials-A'] = {'chains': [A, B, Cc], 'dials': [(2, 1), (1, 0)], 'small': False}
+    C['deep-line-A-C-B'] = {'chains': [A, Cc, B], 'dials': [(0, 1), (1, 2)], 'small': False}
+    if not ctx.quick:
+        C['deep-triangle'] = {'chains': [A, B, Cc], 'dials': [(0, 1), (1, 2), (2, 0)], 'small': False}
+    # a node with a longer chain joins AFTER the others have converged among themselves (start from a non-initial
+    # state: connections that have already carried a complete download, with whatever bookkeeping that left behind)
+    C['late-joiner-deep-fork'] = {'chains': [A, B, Cc], 'dials': [(1, 2)], 'late_dials': [(0, 1)], 'small': False}
+    C['late-joiner-deep-fork-reverse-dials'] = {'chains': [A, B, Cc], 'dials': [(2, 1)], 'late_dials': [(1, 0)], 'small': False}
+    # ... and the same with the downstream node not listening (as with --dont-listen / behind NAT), so that there is a
+    # single connection between it and its neighbour instead of one in each direction
+    C['late-joiner-deep-fork-C-not-listening'] = {'chains': [A, B, Cc], 'dials': [(2, 1)], 'late_dials': [(0, 1)],
+                                                  'no_listen': [2], 'small': False}
+    C['line-C-not-listening'] = {'chains': [A, B, Cc], 'dials': [(2, 1), (1, 0)], 'no_listen': [2], 'small': False}
+    C['late-joiner-shallow'] = {'chains': [chain(2, 'a', 6), chain(2, 'a', 3), chain(2, 'b', 2)], 'dials': [(1, 2)],
+                                'late_dials': [(0, 1)], 'small': False}
     return C
 
 
@@ -100,13 +119,17 @@ class Sim:
                 for j in range(1, len(c) + 1):
                     cs = cs.add_block_no_validation(uni.get(c[:j]).block)
                 W['cs_cache'][key] = cs
-            n = simnet.SimNode(net, 'n%d' % i, '10.0.0.%d' % (i + 1), cs, nonce=1000 + i)
+            n = simnet.SimNode(net, 'n%d' % i, '10.0.0.%d' % (i + 1), cs, nonce=1000 + i,
+                               listen=i not in cfg.get('no_listen', []))
             self.nodes.append(n)
             self.relays.append({})
             self._wrap(i, n)
         for (i, j) in cfg['dials']:
             self.nodes[i].nm.disconnected_peers.update(load_peers_from_list([('10.0.0.%d' % (j + 1), 2412, 'OUTGOING')]))
-        self.max_height = max(len(c) for c in cfg['chains'])
+        late_nodes = {i for d in cfg.get('late_dials', []) for i in d} - {i for d in cfg['dials'] for i in d}
+        self.late_nodes = late_nodes
+        self.max_height = max(len(c) for i, c in enumerate(cfg['chains']) if i not in late_nodes)
+        self.final_height = max(len(c) for c in cfg['chains'])
         self.ticks = [0] * len(self.nodes)
         self.advances = 0
         self.rr = 0                 # round-robin pointer into [tick n0, ..., tick nk, advance]
@@ -158,7 +181,7 @@ class Sim:
     def enabled(self):
         ev = [('deliver', i, sock.fd) for i, sock, ln in self.pipes()]
         for i, n in enumerate(self.nodes):
-            if n.lsock.backlog:
+            if n.lsock is not None and n.lsock.backlog:
                 ev.append(('accept', i))
         for i in range(len(self.nodes)):
             ev.append(('tick', i, 0))
@@ -171,7 +194,7 @@ class Sim:
         if p:
             return ('deliver', p[0][0], p[0][1].fd)
         for i, n in enumerate(self.nodes):
-            if n.lsock.backlog:
+            if n.lsock is not None and n.lsock.backlog:
                 return ('accept', i)
         k = self.rr % (len(self.nodes) + 1)
         if k < len(self.nodes):
@@ -270,7 +293,7 @@ class Sim:
             for key in sorted(n.nm.disconnected_peers):
                 p = n.nm.disconnected_peers[key]
                 h.update(repr((key, p.ban_score, None if p.last_connection_attempt is None else min(T - p.last_connection_attempt, 4000))).encode())
-            h.update(repr(len(n.lsock.backlog)).encode())
+            h.update(repr(len(n.lsock.backlog) if n.lsock is not None else -1).encode())
             for sock in sorted(n.lp.selector.get_map().keys(), key=lambda s: s.fd):
                 if sock.listening:
                     continue
@@ -314,7 +337,7 @@ class Sim:
                 self.drain()
             self.drain()
             fp = self.ledger_fp()
-            ok = all(n.cm.coinstate.head().height >= expect_height for n in self.nodes)
+            ok = all(n.cm.coinstate.head().height >= expect_height for i, n in enumerate(self.nodes) if i not in self.late_nodes)
             if fp == last and ok:
                 stable += 1
                 if stable >= 3:
@@ -345,7 +368,7 @@ class Sim:
                 self.livelock = True
                 break
             p = self.pipes()
-            acc = [i for i, nd in enumerate(self.nodes) if nd.lsock.backlog]
+            acc = [i for i, nd in enumerate(self.nodes) if nd.lsock is not None and nd.lsock.backlog]
             if not p and not acc:
                 break
             if p:
@@ -355,8 +378,17 @@ class Sim:
             n += 1
         return n
 
+    def join_late(self):
+        from skepticoin.networking.remote_peer import load_peers_from_list
+        for (i, j) in self.cfg.get('late_dials', []):
+            self.nodes[i].nm.disconnected_peers.update(load_peers_from_list([('10.0.0.%d' % (j + 1), 2412, 'OUTGOING')]))
+        self.late_nodes = set()
+        self.max_height = self.final_height
+
     def check_converged(self, bad, where, expect_height, expect_head=None):
         for i, n in enumerate(self.nodes):
+            if i in self.late_nodes:
+                continue
             cs = n.cm.coinstate
             hh = cs.head().height
             if hh != expect_height:
@@ -405,6 +437,11 @@ def run_schedule(cfg, choices, deviation_window=70, want_points=False, phases=Tr
         sim.complete_fairly(bad, "completion", sim.max_height)
     if not bad:
         sim.check_converged(bad, "at quiescence", sim.max_height)
+    if not bad and sim.cfg.get('late_dials'):
+        sim.join_late()
+        sim.complete_fairly(bad, "after the late node joined", sim.max_height)
+        if not bad:
+            sim.check_converged(bad, "after a node with a longer chain joined", sim.max_height)
     if not bad and phases:
         continuation(sim, bad)
     return bad, points, sim
@@ -425,7 +462,8 @@ def continuation(sim, bad):
     nb = uni.get(path + ('x',))
     sim.net.clock.t = max(sim.net.clock.t, nb.ts + 1)
     # hand it to a node whose head is the block's parent (the last such node)
-    target = max(i for i, n in enumerate(sim.nodes) if n.cm.coinstate.current_chain_hash == uni.get(path).bid)
+    target = max(i for i, n in enumerate(sim.nodes) if n.cm.coinstate.current_chain_hash == uni.get(path).bid
+                 and n.lsock is not None)
     from skepticoin.networking.messages import DataMessage, DATA_BLOCK, DATA_TRANSACTION
     ext = simnet.Remote(sim.net, sim.nodes[target], host='99.0.0.1')
     ext.hello(nonce=5)
@@ -595,6 +633,8 @@ def run(ctx):
         if ctx.quick and name in ('triangle-long-at-0',):
             bound = 2
             window = 18
+        if ctx.quick and name.startswith(('deep-', 'late-', 'line-C-not', 'fork-depth-1')):
+            window = 14          # long chains: each execution is several times more expensive
         sets = deviation_search(ctx, name, cfg, bound, window)
         nsched[name] = len(sets)
         if ctx.seed:
